@@ -100,11 +100,9 @@ Definition width (t : ty) : nat :=
 
 (* --- the encoder ----------------------------------------------------------------- *)
 
-(* [enc t w off le]: padding to [align t] from offset [off], then the value *)
-Fixpoint enc (t : ty) (w : wval) (off : nat) (le : bool) {struct w} : bytes :=
-  let p := padding (align t) off in
-  let o := (off + length p)%nat in
-  p ++
+(* [encb t w o le]: the value itself, starting at offset [o] (which the caller
+   has aligned for [t]); contained values are each preceded by their padding *)
+Fixpoint encb (t : ty) (w : wval) (o : nat) (le : bool) {struct w} : bytes :=
   match t, w with
   | (TByte | TInt16 | TUInt16 | TInt32 | TUInt32 | TInt64 | TUInt64 | TFd), WInt z =>
       uint (width t) le (twos (width t) z)
@@ -119,23 +117,37 @@ Fixpoint enc (t : ty) (w : wval) (off : nat) (le : bool) {struct w} : bytes :=
         (fix go (l : list wval) (off : nat) : bytes :=
            match l with
            | [] => []
-           | x :: r => let b := enc et x off le in b ++ go r (off + length b)%nat
+           | x :: r =>
+               let p := padding (align et) off in
+               let b := p ++ encb et x (off + length p) le in
+               b ++ go r (off + length b)%nat
            end) l start in
       uint 4 le (N.of_nat (length body)) ++ ip ++ body
   | TStruct ts, WStruct l =>
       (fix go (ts : list ty) (l : list wval) (off : nat) {struct l} : bytes :=
          match ts, l with
-         | t :: ts', x :: r => let b := enc t x off le in b ++ go ts' r (off + length b)%nat
+         | t :: ts', x :: r =>
+             let p := padding (align t) off in
+             let b := p ++ encb t x (off + length p) le in
+             b ++ go ts' r (off + length b)%nat
          | _, _ => []
          end) ts l o
   | TDictEntry kt vt, WStruct [k; v] =>
-      let bk := enc kt k o le in
-      bk ++ enc vt v (o + length bk)%nat le
+      let pk := padding (align kt) o in
+      let bk := pk ++ encb kt k (o + length pk) le in
+      let pv := padding (align vt) (o + length bk) in
+      bk ++ pv ++ encb vt v (o + length bk + length pv) le
   | TVariant, WVariant vt v =>
       let s := uint 1 le (N.of_nat (length (show vt))) ++ show vt ++ [0] in
-      s ++ enc vt v (o + length s)%nat le
+      let p := padding (align vt) (o + length s) in
+      s ++ p ++ encb vt v (o + length s + length p) le
   | _, _ => []
   end.
+
+(* [enc t w off le]: zero padding to the alignment of [t], then the value *)
+Definition enc (t : ty) (w : wval) (off : nat) (le : bool) : bytes :=
+  let p := padding (align t) off in
+  p ++ encb t w (off + length p) le.
 
 (* a sequence of values (a message body): each aligned in turn *)
 Fixpoint enc_seq (ts : list ty) (ws : list wval) (off : nat) (le : bool) : bytes :=
